@@ -515,7 +515,14 @@ type replayOutcome struct {
 }
 
 func replayableKind(k string) bool {
-	return k == "post" || strings.HasPrefix(k, "safe-") || k == "no-panic"
+	return k == "post" || strings.HasPrefix(k, "safe-") || k == "no-panic" || intermediateKind(k)
+}
+
+// intermediateKind: obligations inside the function (loop invariants, call-site preconditions,
+// frames, termination measures). Their model is an input that reaches the violation; the replay
+// runs the real function on it and evaluates every postcondition of the contract.
+func intermediateKind(k string) bool {
+	return k == "inv-init" || k == "inv-keep" || k == "pre" || k == "frame" || k == "dec" || k == "unwind"
 }
 
 func (e *Engine) tryReplay(or *OblResult, part *FuncResult, repo, dir string) *replayOutcome {
@@ -534,6 +541,10 @@ func (e *Engine) tryReplay(or *OblResult, part *FuncResult, repo, dir string) *r
 	fn := e.resolveFn(c)
 	if fn == nil || fn.Parent() != nil || fn.Pkg == nil {
 		out.Note = "function not replayable (closure or missing)"
+		return out
+	}
+	if intermediateKind(or.O.Kind) && len(c.Ensures) == 0 {
+		out.Note = "intermediate obligation of a function without postconditions"
 		return out
 	}
 	if or.O.Kind == "post" && (or.O.Clause == nil || or.O.Clause.Text == "") {
@@ -637,6 +648,23 @@ func (e *Engine) tryReplay(or *OblResult, part *FuncResult, repo, dir string) *r
 		}
 		fmt.Fprintf(&body, "\t_, _ = %s, old_%s\n", n, n)
 	}
+	// the reconstructed inputs must satisfy the preconditions (reconstruction loses aliasing
+	// between inputs; a clause that cannot be executed is taken on trust)
+	{
+		pm := map[string]bool{}
+		for _, n := range argNames {
+			pm[n] = true
+		}
+		for _, rc := range c.Requires {
+			cl, err := rewriteOldForReplay(rc.Text, pm)
+			if err != nil {
+				continue
+			}
+			body.WriteString("\t{\n\t\tholds := true\n\t\tfunc() {\n\t\t\tdefer func() { recover() }()\n")
+			fmt.Fprintf(&body, "\t\t\tholds = %s\n\t\t}()\n", cl)
+			fmt.Fprintf(&body, "\t\tif !holds {\n\t\t\tt.Skipf(\"REPLAY-PRECONDITION: the reconstructed inputs do not satisfy requires [%s]\")\n\t\t}\n\t}\n", rc.Label)
+		}
+	}
 	sig := fn.Signature
 	var resNames, resDecl []string
 	for i := 0; i < sig.Results().Len(); i++ {
@@ -660,7 +688,7 @@ func (e *Engine) tryReplay(or *OblResult, part *FuncResult, repo, dir string) *r
 	}
 	body.WriteString("\t}()\n")
 	fmt.Fprintf(&body, "\tif panicked != nil {\n\t\tt.Fatalf(\"REPLAY-CONFIRMED %s: the call panics: %%v\", panicked)\n\t}\n", or.O.Name)
-	if or.O.Kind == "post" {
+	if or.O.Kind == "post" || intermediateKind(or.O.Kind) {
 		for i := 0; i < sig.Results().Len(); i++ {
 			als := []string{fmt.Sprintf("result%d", i)}
 			if sig.Results().Len() == 1 {
@@ -681,14 +709,28 @@ func (e *Engine) tryReplay(or *OblResult, part *FuncResult, repo, dir string) *r
 		for _, n := range argNames {
 			pm[n] = true
 		}
-		cl, err := rewriteOldForReplay(or.O.Clause.Text, pm)
-		if err != nil {
-			out.Note = "clause could not be rewritten: " + err.Error()
-			return out
+		clauses := []*Clause{or.O.Clause}
+		if intermediateKind(or.O.Kind) {
+			clauses = c.Ensures
 		}
-		body.WriteString("\tvar holds bool\n\tfunc() {\n\t\tdefer func() {\n\t\t\tif x := recover(); x != nil {\n\t\t\t\tt.Skipf(\"REPLAY-NOT-EXECUTABLE: evaluating the clause panicked: %v\", x)\n\t\t\t}\n\t\t}()\n")
-		fmt.Fprintf(&body, "\t\tholds = %s\n\t}()\n", cl)
-		fmt.Fprintf(&body, "\tif !holds {\n\t\tt.Fatalf(\"REPLAY-CONFIRMED %s: clause [%s] is false on the real code for these inputs\")\n\t}\n", or.O.Name, or.O.Clause.Label)
+		body.WriteString("\tnotExecutable := 0\n")
+		for _, pc := range clauses {
+			if pc == nil || pc.Unproved != "" {
+				continue
+			}
+			cl, err := rewriteOldForReplay(pc.Text, pm)
+			if err != nil {
+				if !intermediateKind(or.O.Kind) {
+					out.Note = "clause could not be rewritten: " + err.Error()
+					return out
+				}
+				continue
+			}
+			body.WriteString("\t{\n\t\tholds, ran := true, false\n\t\tfunc() {\n\t\t\tdefer func() { recover() }()\n")
+			fmt.Fprintf(&body, "\t\t\tholds = %s\n\t\t\tran = true\n\t\t}()\n", cl)
+			fmt.Fprintf(&body, "\t\tif !ran {\n\t\t\tnotExecutable++\n\t\t} else if !holds {\n\t\t\tt.Fatalf(\"REPLAY-CONFIRMED %s: clause [%s] is false on the real code for these inputs\")\n\t\t}\n\t}\n", or.O.Name, pc.Label)
+		}
+		body.WriteString("\tif notExecutable > 0 {\n\t\tt.Skipf(\"REPLAY-NOT-EXECUTABLE: %d clause(s) use ghost state that cannot be executed\", notExecutable)\n\t}\n")
 	}
 	var imps []string
 	for p, n := range r.imports {
@@ -718,6 +760,8 @@ func (e *Engine) tryReplay(or *OblResult, part *FuncResult, repo, dir string) *r
 	case strings.Contains(res, "REPLAY-CONFIRMED"):
 		out.Confirmed = true
 		out.Note = "counterexample replayed on the real code: " + firstLineWith(res, "REPLAY-CONFIRMED")
+	case strings.Contains(res, "REPLAY-PRECONDITION"):
+		out.Note = "the inputs rebuilt from the model do not satisfy the precondition (aliasing between inputs is lost): " + firstLineWith(res, "REPLAY-PRECONDITION")
 	case strings.Contains(res, "REPLAY-NOT-EXECUTABLE"):
 		out.Note = "clause uses ghost state that cannot be executed: " + firstLineWith(res, "REPLAY-NOT-EXECUTABLE")
 	case strings.Contains(res, "\nok") || strings.HasPrefix(res, "ok"):
